@@ -760,6 +760,8 @@ def families(tier):
     for n in (1, 2, 3):
         fams.append(('arc-bezier-pairing-%d' % n, M, 'fam_arc_bezier_pairing', {'nroots': n}))
     fams.append(('line-point_to_t', 'vf.props.c11arc', 'fam_line_point_to_t', {}))
+    for sg in (1, -1):
+        fams.append(('arc-phase2t-%s' % ('ccw' if sg > 0 else 'cw'), 'vf.props.c11arc', 'fam_phase2t', {'sign': sg}))
     for nm, rad in (('2x1', (2.0, 1.0)), ('circle', (2.0, 2.0))) + ((('1x3', (1.0, 3.0)),) if tier == 'thorough' else ()):
         for sg in (1, -1):
             fams.append(('arc-point_to_t-%s-%s' % (nm, 'ccw' if sg > 0 else 'cw'), 'vf.props.c11arc', 'fam_arc_point_to_t', {'radii': rad, 'sign': sg}))
